@@ -590,7 +590,7 @@ class ArrayCollection:
         coll._shapes = dict(self._shapes)
         coll._axes = dict(self._axes)
         coll._default = self._default
-        coll._linked = self._linked
+        coll._linked = set()  # links are not inherited (StateMatrix.copy links its own system collection)
         return coll
 
     def get_named_axes(self, *, ignore=None):
